@@ -220,13 +220,16 @@ func fifoShape(t *testing.T, out *vh.Out, dir string, n int, c ctor, shape strin
 	if err != nil {
 		t.Fatalf("%s: %v", c.name, err)
 	}
-	r := &run{out: out, tr: tr, open: map[int]bool{}}
+	r := &run{out: out, tr: tr, open: map[int]string{}}
 	gate := true
 	traced, closedCalled := 0, false
 	// quiet waits (bounded) for what can be expected, then reports what is the case
 	quiet := func() {
-		waitFor(func() bool { return len(r.blocked()) == 0 })
+		// Trace calls must return whatever the writer does; a Close call is only waited for once the writer is free
+		// (in the code as found Close never waits; a Close that waits for the writer's flush would be legitimate)
+		waitFor(func() bool { return r.tracesOut() == 0 })
 		if !gate {
+			waitFor(func() bool { return len(r.blocked()) == 0 })
 			if closedCalled {
 				waitFor(func() bool { return f.eof.Load() })
 			} else {
@@ -371,7 +374,7 @@ func TestX08RealFile(t *testing.T) {
 			if err != nil {
 				t.Fatalf("%s: %v", c.name, err)
 			}
-			r := &run{out: out, tr: tr, open: map[int]bool{}}
+			r := &run{out: out, tr: tr, open: map[int]string{}}
 			nProd, per := 1, 10+rng.Intn(60) // one producer: the file is only read back at the end
 			var wg sync.WaitGroup
 			for p := 0; p < nProd; p++ {
@@ -427,7 +430,7 @@ func TestX08Stress(t *testing.T) {
 		kind := []string{"json", "pb"}[i%2]
 		out.Emit(M{"e": "reset", "kind": kind, "ctor": "verif", "lossy": false, "bound": fileBound, "shape": "stress"})
 		g := newGateW(out, kind)
-		r := &run{out: out, open: map[int]bool{}}
+		r := &run{out: out, open: map[int]string{}}
 		if kind == "json" {
 			r.tr = pubsub.VerifNewJSONTracerW(g, false)
 		} else {
